@@ -115,6 +115,7 @@ pub fn run(ctx: &Ctx) -> i32 {
         random_cases: tier.pick(1_000_000, 60_000_000),
         build_random: &|e| b(e, Force::default()),
         classify: &|c, j, t: &Tag, s| classify(c, j, t, s),
+        all_quirks: false,
     }
     .run();
     let n8: u64 = forms.iter().filter(|f| f.dsz() == Sz::B).map(|f| if f.is_binary() { 131072 } else { 512 }).sum();
